@@ -421,15 +421,18 @@ let ctxrun ic =
         id := int_of_string k; w := n_of_int (int_of_string ww); kind := kd; cap := nat_of_int (int_of_string c);
         world := Threads.w0 !cap; Hashtbl.reset solo; Hashtbl.reset base
     | ["END"] | [] -> ()
-    | "T" :: tid :: toks ->
+    | "T" :: tid :: toks0 ->
         let t = int_of_string tid in
+        (* API-level interning = destination request + copy at once: two model steps, one observation *)
+        let parts = (match toks0 with ["AINTERN"; h] -> [(["INTERNDEST"; string_of_int (St.length h / 2)], true); (["INTERNCOPY"; h], false)] | _ -> [(toks0, true)]) in
+        L.iter (fun (toks, show) ->
         let tn = n_of_int t in
         let stp = step_of toks in
         (* model: the shared world, the return area placed as the generated table says *)
         let c_before = !world.Threads.th tn in
         let (w', o) = Threads.wstep !w trap !cap g !world tn stp in
         world := w';
-        Printf.printf "M %d %d %s\n" !id t (show_obs !w false o);
+        if show then Printf.printf "M %d %d %s\n" !id t (show_obs !w false o);
         (* spec: this thread alone (c14), restarted on a fresh thread at every INIT (c13),
            ids replaced by the bytes they stand for (c12) *)
         let sw = match Hashtbl.find_opt solo t with Some x -> x | None -> Threads.w0 !cap in
@@ -448,7 +451,7 @@ let ctxrun ic =
            | _ -> stp) in
         let (sw', so) = Threads.wstep !w trap !cap false sw tn stp' in
         Hashtbl.replace solo t sw';
-        Printf.printf "S %d %d %s\n" !id t (show_obs !w (!kind = "c13") so)
+        if show then Printf.printf "S %d %d %s\n" !id t (show_obs !w (!kind = "c13") so)) parts
     | _ -> failwith ("ctx: bad line " ^ line)
   done with End_of_file -> ())
 
